@@ -11,7 +11,7 @@ from ..procs import pmap
 from ..tlc import account, run_tlc, tla
 
 # signatures: (name, hasdef, default, kwonly); values are abstract in the specification and realised as JSON-distinct
-# values that Python's == conflates: 1, 2, 3 -> "1", 4 -> 1.0, 5 -> True
+# values that Python's == conflates: 1, 2, 3 -> "1", 4 -> 1.0, 5 -> True; 6 -> a mapping whose key order varies per call
 SIGS = [
     [('a', False, 0, False)],
     [('a', False, 0, False), ('b', True, 2, False)],
@@ -20,12 +20,16 @@ SIGS = [
     [('a', False, 0, False), ('b', True, 2, False), ('k', True, 1, True)],
     [('v', True, 2, False), ('a', True, 1, False)],
 ]
-VALS = [1, 2, 3, 4, 5]
+VALS = [1, 2, 3, 4, 5, 6]
+_FLIP = [0]
 IGNORED = ['v']
 METHODS = [('m1', ''), ('m2', ''), ('m1', '2')]
 
 
 def pyval(v):
+    if v == 6:      # ONE value - a mapping (nested once) - spelled with its keys in alternating insertion order
+        _FLIP[0] += 1
+        return ({'p': 1, 'q': {'r': 2, 's': 3}} if _FLIP[0] % 2 else {'q': {'s': 3, 'r': 2}, 'p': 1})
     return {3: '1', 4: 1.0, 5: True}.get(v, v)
 
 
